@@ -23,7 +23,8 @@ RULE = ("each case is one fresh interpreter (every fourth one started with pytho
         "a bijection sweep every 10 steps.  distinct = (API function, argument position at fault / failpoint site, "
         "prior state class); non-trivial = the call touches a registry"
         " Histories also load objects pickled elsewhere before their declaration runs, use canonically equivalent Unicode spellings of taken symbols, scales with a zero point of another dimension, second names/symbols for named prefixes; every fourth runs under python -O."
-        " Stored data written under OTHER declarations (same names, other prefixes/units) is read before the imports, after them or mid-history: no declared name may be rebound.  Dimensions are re-derived under the same name with a symbol, and under a second name.")
+        " Stored data written under OTHER declarations (same names, other prefixes/units) is read before the imports, after them or mid-history: no declared name may be rebound.  Dimensions are re-derived under the same name with a symbol, and under a second name."
+        " Definition calls with arguments of the wrong kind (a unit for a dimension, swapped, None) must leave no trace; names that read as symbols are looked up by name through pydantic.")
 ASSUMPTIONS = [
     "faults are injected only on entry to callees at call boundaries the real code has and that a real exception can "
     "reach (scale->translate with a bad zero point, unit->define, equals->equate, derive->alias)",
